@@ -1,6 +1,8 @@
 def nontrivial(c):
     ops = [l.split(" ")[1] for l in c["lines"] if l.startswith("op ")]
     obs = [l for l in c["lines"] if l.startswith("obs ")]
+    if "stopall" in ops:         # router history: shutdown requested with an upload in flight or an event pending
+        return "inflight" in ops or "rtev" in ops
     if "rstop" in ops:           # Retry-After history: something was pending or asleep when Stop was requested
         stop = [o for l, o in zip([l for l in c["lines"] if l.startswith("op ")], obs) if l == "op rstop"]
         return any(" u=d" in o for o in stop)
@@ -24,6 +26,10 @@ SPEC = dict(
          "reaches the hand-over of a kept trace is parked right before `i.tracesToSend <- trace` (hook in the Metrics the "
          "collector is given), Stop is started and the worker released once Stop has closed the input channels; the rest: data "
          "arriving after the stops, transmission stopped first, double stops, clocks running between the stops, Agent.Stop). Runs on a real InMemCollector + real DirectTransmission + in-process fake Honeycomb. "
+         "10 % of the histories are ROUTER histories instead: the application wired as cmd/refinery/main.go wires it (inject graph: "
+         "real app.App with both route.Router on 127.0.0.1, real InMemCollector, two real DirectTransmission, fake Honeycomb), "
+         "1-4 complete uploads / uploads left in flight (Expect: 100-continue, half the body), cut at every prefix and followed "
+         "by startstop.Stop over g.Objects() with the uploads completed 50 ms later. "
          "A fifth of the histories are RETRY-AFTER histories instead: a real DirectTransmission (fake clock, MaxBatchSize 1-3) in "
          "front of a scripted upstream whose limited destinations refuse with 429/503 + Retry-After r in {1,2,5,30,59} s from the "
          "first attempt until r later and accept from then on; events are enqueued and the clock advances (often to r-1, r, r+1), "
@@ -41,6 +47,7 @@ SPEC = dict(
         "clockwork.FakeClock (two instances: collector, transmission)",
         "harness accessors zz_verif_shutdown.go (collect, transmit, agent): park workers with the code's pause channel, "
         "gate in front of sendTraces (removed before Stop), hook on worker 0's decision cache Stop, TryRLock probe of batchMutex",
+        "facebookgo inject + startstop, net/http server Shutdown (router histories; free ports on 127.0.0.1 picked by bind-and-close)",
         "hookMetrics (NullMetrics + park at Histogram('trace_kept_sample_rate'); a pass that is panicking is detected from "
         "runtime.gopanic on the stack of sendExpiredTracesInCache's deferred Histogram call and its goroutine is held there, so the process survives)",
         "recording wrapper around DirectTransmission (serialises EnqueueEvent calls, stalls the sendTraces goroutine for 5 ms during Stop)",
@@ -60,7 +67,10 @@ SPEC = dict(
              "after Stop = panic; Stop's coded order (close inputs, wait workers, close tracesToSend, wait sender) admits no send on the closed "
              "channel for any interleaving with worker passes (no_send_after_close), refuted for the order that closes tracesToSend "
              "before waiting (a worker between keep decision and hand-over panics; observed through a panic-time hook, signature "
-             "C36:stop-panics:send-on-closed-channel); the shutdown flush honours Retry-After (stop_flush_honours_retry_after: with Clock.Sleep as coded every "
+             "C36:stop-panics:send-on-closed-channel); the stop sequence (startstop.Stop aborts at the first error; Router.Stop = Shutdown with a grace period) stops every "
+             "component whenever what is in flight finishes within the grace period (stop_sequence_runs_all; a 60 ns grace aborts at the "
+             "router), observed on the real inject graph (C36:stop-aborted:router-error / component-not-stopped); "
+             "the shutdown flush honours Retry-After (stop_flush_honours_retry_after: with Clock.Sleep as coded every "
              "accepted event, pending or already asleep, is delivered by the time Stop returns and no retry precedes the announced "
              "instant; refuted for a wait that Stop cuts short); the full statement is proved for the proposed repair (fixed = true); both agent loops (healthCheck, reportUsagePeriodically with "
              "sendUsageReport's pending / completion waits) reach `exited` within 6 of their own steps after cancel from every state, "
